@@ -271,10 +271,13 @@ func runCtrl(p qbftsim.Prog) *prog.Result {
 	res := &prog.Result{}
 	s := qbftsim.New(p)
 	s.WantRoots = true
-	stale, acted := 0, 0
+	stale, acted, prevUndecided := 0, 0, 0
 	check := func(ev *qbftsim.Event) bool {
 		if ev.Kind != "timeout" {
 			return true
+		}
+		if ev.TargetUndecided && ev.TimeoutR >= 1 {
+			prevUndecided++
 		}
 		effective := !ev.NoInst && ev.TimeoutH == s.Height && ev.Before.HasInst && !ev.Before.Decided && ev.TimeoutR >= ev.Before.Round && int(ev.Before.Round) < instance.CutoffRound
 		if effective {
@@ -299,9 +302,9 @@ func runCtrl(p qbftsim.Prog) *prog.Result {
 			why = "earlier round"
 		}
 		if ev.After.StateRoot != ev.Before.StateRoot || ev.After.Round != ev.Before.Round || ev.After.Decided != ev.Before.Decided || len(ev.Emitted) != 0 ||
-			ev.After.Arms != ev.Before.Arms || ev.After.Height != ev.Before.Height {
-			res.Fail = prog.Failf("C17:stale-timeout-changed-state", "op%d: timeout event (h%d r%d) for %s changed something: round %d->%d decided %v->%v emitted %d arms %d->%d state-root-changed=%v\nlog:\n%s",
-				ev.Op, ev.TimeoutH, ev.TimeoutR, why, ev.Before.Round, ev.After.Round, ev.Before.Decided, ev.After.Decided, len(ev.Emitted), ev.Before.Arms, ev.After.Arms, ev.After.StateRoot != ev.Before.StateRoot, s.Dump())
+			ev.After.Arms != ev.Before.Arms || ev.After.Height != ev.Before.Height || ev.TargetChanged {
+			res.Fail = prog.Failf("C17:stale-timeout-changed-state", "op%d: timeout event (h%d r%d) for %s changed something: round %d->%d decided %v->%v emitted %d arms %d->%d state-root-changed=%v addressed-instance-changed=%v\nlog:\n%s",
+				ev.Op, ev.TimeoutH, ev.TimeoutR, why, ev.Before.Round, ev.After.Round, ev.Before.Decided, ev.After.Decided, len(ev.Emitted), ev.Before.Arms, ev.After.Arms, ev.After.StateRoot != ev.Before.StateRoot, ev.TargetChanged, s.Dump())
 			return false
 		}
 		return true
@@ -317,7 +320,7 @@ func runCtrl(p qbftsim.Prog) *prog.Result {
 		if !s.Ops[id].Started {
 			continue
 		}
-		for _, k := range []string{"stale-round", "other-height", "lower-height"} {
+		for _, k := range []string{"stale-round", "other-height", "lower-height", "prev-height", "prev-height-next"} {
 			if ev := s.Timeout(id, k); ev != nil && !check(ev) {
 				return res
 			}
@@ -329,7 +332,7 @@ func runCtrl(p qbftsim.Prog) *prog.Result {
 		}
 	}
 	res.NonTrivial = stale > 0 && acted > 0
-	res.Classes = []string{fmt.Sprintf("stale>0=%v", stale > 0), fmt.Sprintf("acted>0=%v", acted > 0)}
+	res.Classes = []string{fmt.Sprintf("stale>0=%v", stale > 0), fmt.Sprintf("acted>0=%v", acted > 0), fmt.Sprintf("timeout-for-stored-undecided-instance-of-another-height>0=%v", prevUndecided > 0)}
 	sort.Strings(res.Classes)
 	prog.Count("TestPropControllerTimeouts", "stale_events", stale)
 	prog.Count("TestPropControllerTimeouts", "effective_timeouts", acted)
@@ -338,7 +341,7 @@ func runCtrl(p qbftsim.Prog) *prog.Result {
 
 func genCtrl(t *rapid.T) qbftsim.Prog {
 	v := false
-	return qbftsim.Gen(t, qbftsim.GenOpts{Ns: []int{4, 4, 7}, MaxOps: 40, VerifyOnly: &v})
+	return qbftsim.Gen(t, qbftsim.GenOpts{Ns: []int{4, 4, 7}, MaxOps: 40, VerifyOnly: &v, MultiHeight: true})
 }
 
 func TestPropControllerTimeouts(t *testing.T) {
